@@ -3,7 +3,7 @@
 // Oracle (from the statement): whatever the data holds, a run ends with output or with a reported error - a panic is a
 // violation.  ("Never silently wraps a number" needs a reference value: the arithmetic part of it is in grid c03.)
 // Grid: 64 expressions / aggregates / functions (arithmetic, casts, subscripts, array and timestamp functions, EXTRACT,
-// date_trunc, make_timestamp, every aggregate) x 26 lines (64-bit extremes, NaN and infinities as REAL text, zero divisors,
+// date_trunc, make_timestamp, every aggregate) x 29 lines (64-bit extremes, NaN and infinities as REAL text, zero divisors,
 // huge and negative subscripts, absent groups, NULL everywhere, out-of-range date parts, dates in DST gaps of common zones,
 // malformed JSON) x 3 output formats, one line per run and all lines in one run.
 include!("verif_grid_common.rs");
@@ -36,7 +36,8 @@ fn verif_grid() {
         "a=2 b=63 x=inf s=inf arr=1,2 d=2021-03-14 02:30:00 i=9223372036854775807:0:0",
         "a=2 b=64 x=-inf s=-1 d=2020-13-45 25:61:61 i=0:9223372036854775807:0",
         "a=10 b=400 x=1e-320 s=9223372036854775808 d=4294967297-01-01 00:00:00 i=0:0:9223372036854775807",
-        "a= b= x= s= ", "a=1 b= x=abc s=x", "a=99999999999999999999 b=1 x=1e999 s=y", "", "garbage", "{\"j\": {\"k\": 9223372036854775808, \"list\": [1, 1e999]}}", "{\"j\": {\"k\": \"x\", \"list\": []}} a=1 b=1 x=1 s=1",
+        "a=-9223372036854775808 b=9223372036854775807 x=1.0 s=x arr=1,2,3 d=2020-01-01 00:00:00 i=1:1:1", "a=9223372036854775807 b=-9223372036854775808 x=-1.0 s=y arr=3,2,1 i=-1:-1:-1",
+        "a=0 b=-1 x=0.5 s=z arr=5,6,7", "a= b= x= s= ", "a=1 b= x=abc s=x", "a=99999999999999999999 b=1 x=1e999 s=y", "", "garbage", "{\"j\": {\"k\": 9223372036854775808, \"list\": [1, 1e999]}}", "{\"j\": {\"k\": \"x\", \"list\": []}} a=1 b=1 x=1 s=1",
         "{\"j\": [1, 2]", "{\"j\": {\"k\": 1.5, \"list\": [null, null]}} a=3 b=3 x=3 s=3", "a=3 b=2 x=2.5 s=\u{1F600}\u{e9} arr=1,2,3", "a=-3 b=2 x=-2.5 s=%s%n arr=18446744073709551615,1,1",
         "a=4611686018427387904 b=2 x=4.0 s=a arr=2,2,2 d=1969-12-31 23:59:59 i=-0:0:1", "a=3037000500 b=3037000500 x=9.9e307 s=b d=1970-01-01 00:00:00 i=00:00:00",
         "a=-4611686018427387905 b=2 x=2.2250738585072014e-308 s=c d=2038-01-19 03:14:08 i=596523:14:07", "a=7 b=7 x=7 s=7 arr=7,7,7 d=2262-04-11 23:47:17 i=1:1",
